@@ -178,3 +178,30 @@ func (w *WaitGroup) Go(f func()) {
 		f()
 	}()
 }
+
+// OnceFunc, OnceValue and OnceValues mirror the standard library's helpers on top of the modelled Once (a panic in f
+// is not re-raised on later calls as the standard library does: the first call's panic propagates, later calls return
+// zero values).
+func OnceFunc(f func()) func() {
+	var o Once
+	return func() { o.Do(f) }
+}
+
+func OnceValue[T any](f func() T) func() T {
+	var o Once
+	var v T
+	return func() T {
+		o.Do(func() { v = f() })
+		return v
+	}
+}
+
+func OnceValues[T1, T2 any](f func() (T1, T2)) func() (T1, T2) {
+	var o Once
+	var v1 T1
+	var v2 T2
+	return func() (T1, T2) {
+		o.Do(func() { v1, v2 = f() })
+		return v1, v2
+	}
+}
